@@ -18,6 +18,7 @@ ID = 'C04'
 LEVEL = 'exploration'
 RULE = ('Each run = seeded diffusion configuration (single-phase binary/ternary/quaternary with synthetic D(x,T) matrix, homogenization with synthetic 1-3 phase mobility sets, '
         'a few real Ni-Cr-Al / Fe-Cr-Ni runs) x boundary-condition mix x temperature field x 1-4 solve calls of k stability-limited steps each (k in 5..150) with Euler or RK4. '
+        'A quarter of the synthetic runs are preceded, in the same process, by another model with the same element names and open boundaries (cross-instance history). '
         'Non-trivial = at least 10 ledger-checked steps; distinct = distinct record digest; signature = (model, provider, elements, BC kinds present, T kind, iterators, several calls, clip seen).')
 ASSUMPTIONS = ['Ledger compares the pre-clip state handed to postProcess with dt * sum_s w_s (J_left,s - J_right,s)/dz from the tapped fluxes (w = 1 for Euler; 1/6,2/6,2/6,1/6 for RK4); '
                'steps on which the documented clip to [minComposition, 1-minComposition] changed a value are exempt and counted.',
